@@ -1,11 +1,11 @@
 From Coq Require Extraction.
 From Coq Require Import ExtrOcamlBasic.
-From Coq Require Import List String.
+From Coq Require Import Bool List String.
 Open Scope string_scope.
 From SA Require Import Base.Tok Mux.Runtime Queue.Close Mux.HandlerRun.
 Definition dispatch (ts : list tok) : list tok :=
   match ts with
-  | op :: _ => if is_word "c17q" op then dispatch_c17q ts else if is_word "c17p" op then dispatch_c17p ts
+  | op :: _ => if is_word "c17q" op || is_word "c17qd" op then dispatch_c17q ts else if is_word "c17p" op then dispatch_c17p ts
                else if is_word "c02h" op then dispatch_c02h ts else dispatch_runtime ts
   | nil => dispatch_runtime ts
   end.
